@@ -19,6 +19,8 @@ RELABEL = {
     "p-only": (lambda p: p + 17, lambda h: h),
     "hh-only": (lambda p: p, lambda h: h + 29),
     "zero-based": (None, None),  # dense ranks starting at 0
+    "multiples-of-100": (lambda p: p * 100, lambda h: h * 100),
+    "hh-large": (lambda p: p + 3, lambda h: h * 1000 + 100000),
 }
 
 
@@ -96,6 +98,64 @@ def task_pairs(arg):
     return out.dump()
 
 
+def task_big_table(arg):
+    """A inside a table of more than a thousand rows made of relabelled copies of other households."""
+    date_iso, name_a, nrows = arg
+    out = Partial()
+    year = int(date_iso[:4])
+    rows_a = popgen.library_rows(name_a, year)
+    dfa = popgen.frame(rows_a)
+    keys = dfa["p_id"].tolist()
+    try:
+        alone = sim.sim_all(dfa, date_iso)
+    except Exception as e:  # noqa: BLE001
+        if sim.known_crash(date_iso, e):
+            out.count("sims_skipped_known_C08_crash")
+        else:
+            out.violation(f"simulation-raises:{type(e).__name__}", {"date": date_iso, "population": name_a}, repr(e)[:300])
+        return out.dump()
+    others = [n for n in popgen.LIBRARY if n != name_a]
+    filler = []
+    k = 0
+    while len(filler) < nrows:
+        nm = others[k % len(others)]
+        rows = popgen.library_rows(nm, year)
+        off_p, off_h = 1000 + 200 * k, 100 + 20 * k
+        for r in rows:
+            c = dict(r)
+            c["hh_id"] = r["hh_id"] + off_h
+            for col in ID_LIKE:
+                c[col] = r[col] + off_p if r[col] >= 0 else r[col]
+            if k % 5 == 0:
+                c["alter"] = min(r["alter"] + 30, 100) if r["alter"] >= 40 else r["alter"]
+            filler.append(c)
+        k += 1
+    rows = filler + rows_a + filler[:0]  # A sits behind all the other rows
+    df = popgen.frame(rows)
+    case = {"date": date_iso, "A": name_a, "rows": len(df), "placement": "middle of a table of relabelled copies of the other households"}
+    out.state((date_iso, name_a, "big-table"))
+    try:
+        joint = sim.sim_all(df, date_iso)
+    except Exception as e:  # noqa: BLE001
+        if sim.known_crash(date_iso, e):
+            out.count("sims_skipped_known_C08_crash")
+        else:
+            out.violation(f"big-table-simulation-raises:{type(e).__name__}", case, repr(e)[:300])
+        return out.dump()
+    out.step()
+    mask = df["p_id"].isin(keys).to_numpy()
+    sub = joint[mask].reset_index(drop=True)
+    diffs = sim.compare_results(alone, sub, keys, df["p_id"][mask].tolist(), ulps=0, check_dtype=True)
+    for col, kind, detail in diffs:
+        out.violation(f"joint-vs-alone:{kind}:{col}", {**case, "column": col}, f"{col} of {name_a} changes ({kind}) inside a table of {len(df)} rows on {date_iso}: {detail}")
+    for c in ("fg_id", "bg_id", "wthh_id", "eg_id", "ehe_id", "sn_id"):
+        if c in joint.columns:
+            ia, ib = set(joint[c][mask].tolist()), set(joint[c][~mask].tolist())
+            if ia & ib:
+                out.violation(f"id-collision:{c}", {**case, "column": c}, f"{c}: {sorted(ia & ib)[:5]} shared between unrelated households in the big table")
+    return out.dump()
+
+
 def task_relabel(arg):
     date_iso, names = arg
     out = Partial()
@@ -135,6 +195,45 @@ def task_relabel(arg):
                     out.violation(f"relabel:pointer-output:{c}", {**case, "column": c}, f"{got[c].tolist()} vs {want}")
         out.outcome((rl, not diffs))
     return out.dump()
+
+
+def check_large_arrays(rep):
+    """join_numpy / sum_by_p_id / grouped_sum on arrays around block-size-like lengths, against a dict-based reference."""
+    from _gettsim.aggregation import grouped_sum, sum_by_p_id
+    from _gettsim.shared import join_numpy
+
+    for n in (4095, 4096, 4097, 5000, 8193):
+        p_id = (np.arange(n) * 7 + 3) % (8 * n)  # injective (7 and 8n coprime for these n? keep unique via permutation below)
+        p_id = np.random.RandomState(n).permutation(np.arange(10, 10 + n))  # fixed permutation per n: sparse-ish, unsorted, unique
+        fk = np.where(np.arange(n) % 3 == 0, -1, np.roll(p_id, 5))
+        target = (np.arange(n) % 97).astype(float) * 0.5
+        rep.state(("large", n))
+        pos = {int(p): i for i, p in enumerate(p_id.tolist())}
+        want = np.array([-1.0 if k < 0 else target[pos[int(k)]] for k in fk.tolist()])
+        got = join_numpy(fk, p_id, target, -1.0)
+        rep.step()
+        if not np.array_equal(np.asarray(got), want):
+            i = int(np.argmax(np.asarray(got) != want))
+            rep.violation("large-array:join_numpy", {"n": n, "position": i}, f"join_numpy on {n} rows: position {i} gives {got[i]}, expected {want[i]}")
+        col = (np.arange(n) % 13).astype(float)
+        want_s = np.zeros(n)
+        for i, k in enumerate(fk.tolist()):
+            if k >= 0:
+                want_s[pos[int(k)]] += col[i]
+        got_s = sum_by_p_id(col, fk, p_id)
+        rep.step()
+        if not np.array_equal(np.asarray(got_s), want_s):
+            i = int(np.argmax(np.asarray(got_s) != want_s))
+            rep.violation("large-array:sum_by_p_id", {"n": n, "position": i}, f"sum_by_p_id on {n} rows: position {i} gives {got_s[i]}, expected {want_s[i]}")
+        gid = (p_id // 3).astype(int)
+        sums = {}
+        for g, v in zip(gid.tolist(), col.tolist()):
+            sums[g] = sums.get(g, 0.0) + v
+        want_g = np.array([sums[g] for g in gid.tolist()])
+        got_g = grouped_sum(col, gid)
+        rep.step()
+        if not np.array_equal(np.asarray(got_g), want_g):
+            rep.violation("large-array:grouped_sum", {"n": n}, f"grouped_sum on {n} rows differs from the definition")
 
 
 def check_id_arithmetic(rep):
@@ -232,9 +331,13 @@ def run(tier):
     rl = [(d, [n]) for d in dates for n in names] + [(d, c) for d in dates for c in (["couple_kids", "parent_elsewhere"], ["patchwork", "three_gen", "pensioners"])]
     for part in harness.pmap(task_relabel, harness.rotate(rl)):
         rep.merge(part)
+    bt = [(d, a, 4400) for d in dates[-1:] for a in names] if not thorough else [(d, a, n) for d in dates[::5] for a in names for n in (4400, 9000)]
+    for part in harness.pmap(task_big_table, harness.rotate(bt)):
+        rep.merge(part)
     check_id_arithmetic(rep)
+    check_large_arrays(rep)
     rep.bound = {"dates": dates, "households": names, "placements": "B after A; B before A in every rotation of B (each B row first once); interleaved",
-                 "relabellings": list(RELABEL), "max_p_id": 6007 * 160, "max_hh_id": 601 * 16}
+                 "relabellings": list(RELABEL), "big_table_rows": "4400 (thorough also 9000), A placed last", "max_p_id": 6007 * 160, "max_hh_id": 601 * 16}
     rep.assumptions = ["ids are kept below 10^6 (p_id) / 10^4 (hh_id): numpy_groupies allocates max(id)+1 slots and derived ids are hh_id*100",
                        "comparison is bit-exact on every non-id node (joint vs alone keeps the evaluation order within A's groups)"]
     return rep.finish(
